@@ -14,6 +14,7 @@ type group struct {
 	start, end int
 	read       bool          // GET / HEAD offered to mirrors: clause (5) applies
 	called     time.Duration // L1: harness clock when the request was handed to the client (0 = unknown)
+	ended      time.Duration // L1: harness clock after the response was closed (0 = unknown)
 	taint      bool          // the request's context ended: it may have left a transport error booked on a host without any log entry
 }
 
@@ -27,6 +28,11 @@ type logOpts struct {
 
 type hostState struct {
 	dirty    bool // an earlier response may have left back-off / auth state behind
+	// clause (5): a host that failed is "currently backing off" at most until the configured maximum
+	// delay (or the server-requested one) after the failure was booked; hard = state that does not expire
+	// (answered 401, context ended, cap)
+	hard   bool
+	expiry time.Duration
 	lastFail *rm.Entry
 	lastRA   time.Duration // >0: lastFail carried a valid Retry-After (bound already reduced for fractional values)
 	// clause (4)
@@ -86,16 +92,30 @@ func (w *world) analyseLog(es []*rm.Entry, o logOpts) []*evid.Violation {
 		gAt[g.start] = append(gAt[g.start], g) // (a request that sent nothing shares its index with the next one)
 	}
 	timingOff := false // set once a request went to a URL that bypasses per-host accounting
+	endedOf := func(i int) time.Duration {
+		for _, g := range o.groups {
+			if i >= g.start && i < g.end {
+				return g.ended
+			}
+		}
+		return 0
+	}
 	for i, e := range es {
 		for _, g := range gAt[i] {
 			if g.read && g.end > g.start {
-				for _, v := range w.checkOrder(es[g.start:g.end], st, timingOff, g.called) {
+				// lower bound of the moment the client decided the order of this request
+				decided := g.called
+				if decided == 0 && len(o.groups) > 0 && o.groups[0].ended == 0 && i > 0 {
+					decided = es[i-1].Arrive // sequential operation: not before the previous request was sent
+				}
+				for _, v := range w.checkOrder(es[g.start:g.end], st, timingOff, g.called, decided) {
 					add(v)
 				}
 			}
 			if g.taint {
 				for _, n := range w.names {
 					get(n).dirty = true
+					get(n).hard = true
 				}
 			}
 		}
@@ -110,6 +130,7 @@ func (w *world) analyseLog(es []*rm.Entry, o logOpts) []*evid.Violation {
 			timingOff = true
 			for _, n := range w.names {
 				get(n).dirty = true
+				get(n).hard = true
 			}
 		}
 		s := get(e.Host)
@@ -144,6 +165,30 @@ func (w *world) analyseLog(es []*rm.Entry, o logOpts) []*evid.Violation {
 				}
 			}
 		}
+		// ---- when does whatever this answer left behind in the client run out
+		switch ec.kind {
+		case "ok", "lack", "lack-injected", "noeffect":
+		default:
+			base := endedOf(i) // L1: booked before the logical request was over (harness clock, like "called")
+			if base == 0 {
+				base = max(e.Done, e.Arrive)
+				if e.Fault == "truncate" {
+					s.hard = true // noticed whenever the body is consumed
+				}
+			}
+			hold := w.dMax
+			if e.RespHeader != nil {
+				if ra, _ := raDuration(e.RespHeader.Get("Retry-After")); ra > hold {
+					hold = ra
+				}
+			}
+			if e.Status == 401 || e.Fault == "ctx" || e.Fault == "cap" || e.Fault == "framing" || e.Fault == "no-such-host" {
+				s.hard = true
+			}
+			if base+hold > s.expiry {
+				s.expiry = base + hold
+			}
+		}
 		// ---- state update
 		switch {
 		case ec.kind == "transient" && ec.certain && o.backsOff(e):
@@ -173,7 +218,7 @@ func (w *world) analyseLog(es []*rm.Entry, o logOpts) []*evid.Violation {
 // checkOrder evaluates clause (5) for one logical read request that is offered
 // to every configured host. Hosts that were never contacted count as "after"
 // every contacted one.
-func (w *world) checkOrder(lr []*rm.Entry, st map[string]*hostState, timingOff bool, called time.Duration) []*evid.Violation {
+func (w *world) checkOrder(lr []*rm.Entry, st map[string]*hostState, timingOff bool, called, decided time.Duration) []*evid.Violation {
 	var out []*evid.Violation
 	var firsts []string
 	pos := map[string]int{}
@@ -189,9 +234,14 @@ func (w *world) checkOrder(lr []*rm.Entry, st map[string]*hostState, timingOff b
 	if len(firsts) == 0 || len(w.names) < 2 {
 		return nil
 	}
+	// clean: never failed, or every back-off an earlier answer can have caused had run out (configured
+	// maximum delay / Retry-After after the failure) before the order of this request was decided
 	clean := func(h string) bool {
 		s, ok := st[h]
-		return !ok || !s.dirty
+		if !ok || !s.dirty {
+			return true
+		}
+		return !s.hard && !timingOff && decided > 0 && decided >= s.expiry
 	}
 	aFirst := lr[0].Arrive
 	desc := func() string {
